@@ -16,8 +16,8 @@ for p in props:
         'replay_cmd_template': './check %s --replay {path}' % p['id'],
         'engine': 'vekscan+vv',
         'level_claimed': {'category': c['category'], 'text': c['text'], 'design_ref': c.get('design_ref', 'DESIGN.md section 4, ' + p['id'])},
-        'level_note': c['note'],
-        'technique': c['technique'],
+        'level_note': c['note'] + ' The verdict is computed on the analysed build (debug assertions, cfg(nightly)); every check also compares the MIR of each vek body it interpreted with a release build under cfg(stable), re-runs the spec with debug_assert! conditions not evaluated where such a body has one, and fails closed on cfg predicates or type-level constants it cannot flip (DESIGN.md 6.6).',
+        'technique': c['technique'] + '; cross-configuration MIR fingerprint comparison of the interpreted bodies (debug/nightly vs release/stable)',
     })
 na = [{'property_id': p['id'], 'reason': 'check not built yet (build in progress; see DESIGN.md section 7)'} for p in props if p['id'] not in CLAIMED]
 m = {
